@@ -826,6 +826,11 @@ func (env *cenv) evalCall(t ECall) cval {
 			out[i] = e.ghost(env.cur, fmt.Sprintf("%s#%d", gkey("lastrecv", v.v[0]), i), regSort(k))
 		}
 		return cval{v: out, T: ct.Elem()}
+	case "wbyte":
+		// byte i of the slice most recently handed to the network
+		i := env.toInt64(env.eval(t.Args[0]))
+		base := e.ghost(env.cur, "lastwrite.base", BV(64))
+		return cval{v: Val{e.read(env.cur.h[0], c.Add(base, i))}, T: tByte}
 	case "gobj":
 		ks, ok := t.Args[0].(EStr)
 		if !ok {
